@@ -583,6 +583,12 @@ rfbClientConnectionGone(rfbClientPtr cl)
     if(cl->sock != RFB_INVALID_SOCKET)
 	rfbCloseSocket(cl->sock);
 
+    /* a file transfer that was still in progress */
+    if (cl->fileTransfer.fd != -1) {
+        close(cl->fileTransfer.fd);
+        cl->fileTransfer.fd = -1;
+    }
+
     if (cl->scaledScreen!=NULL)
         cl->scaledScreen->scaledScreenRefCount--;
 
@@ -1743,6 +1749,11 @@ rfbBool rfbProcessFileTransfer(rfbClientPtr cl, uint8_t contentType, uint8_t con
         /* The client requests a File */
         if (!rfbFilenameTranslate2UNIX(cl, buffer, filename1, sizeof(filename1)))
             goto fail;
+        if (cl->fileTransfer.fd != -1) {
+            /* a new request replaces the transfer in progress */
+            close(cl->fileTransfer.fd);
+            cl->fileTransfer.fd = -1;
+        }
         cl->fileTransfer.fd=open(filename1, O_RDONLY, 0744);
 
         /*
@@ -1866,6 +1877,10 @@ rfbBool rfbProcessFileTransfer(rfbClientPtr cl, uint8_t contentType, uint8_t con
         /* If the file exists... We can send a rfbFileChecksums back to the client before we send an rfbFileAcceptHeader */
         /* TODO: Delta Transfer */
 
+        if (cl->fileTransfer.fd != -1) {
+            close(cl->fileTransfer.fd);
+            cl->fileTransfer.fd = -1;
+        }
         cl->fileTransfer.fd=open(filename1, O_CREAT|O_WRONLY|O_TRUNC, 0744);
         if (DB) rfbLog("rfbProcessFileTransfer() rfbFileTransferOffer(\"%s\"->\"%s\") %s %s fd=%d\n", buffer, filename1, (cl->fileTransfer.fd==-1?"Failed":"Success"), (cl->fileTransfer.fd==-1?strerror(errno):""), cl->fileTransfer.fd);
         /*
